@@ -19,10 +19,14 @@ def coCall (w : World) (owner fn : Nat) (tag : String) (delay : Int) : Call :=
 theorem newCallOut_fst (w : World) (o f : Nat) (tag : String) (delay : Int) :
     (newCallOut w o f tag delay).1 =
       setSlot { w with cot := coCot w, unique := w.unique + 1 } (coSlot w delay)
-        (insertDelta (w.slots (coSlot w delay)) (coRot w delay) (coCall w o f tag delay)) := rfl
+        (insertDelta (w.slots (coSlot w delay)) (coRot w delay) (coCall w o f tag delay)) := by
+  unfold newCallOut coCall coRot coSlot coDue coCot coD
+  simp only [tie_clampDelay, tie_initCot, tie_slotExpr, tie_rotExpr, tie_handleExpr]
 
 theorem newCallOut_snd (w : World) (o f : Nat) (tag : String) (delay : Int) :
-    (newCallOut w o f tag delay).2 = coSlot w delay + N * (w.unique + 1) := rfl
+    (newCallOut w o f tag delay).2 = coSlot w delay + N * (w.unique + 1) := by
+  unfold newCallOut coSlot coDue coD
+  simp only [tie_clampDelay, tie_slotExpr, tie_handleExpr]
 
 theorem coD_pos (delay : Int) : 1 ≤ coD delay := by unfold coD; split <;> omega
 
